@@ -1118,6 +1118,9 @@ func traceCmd(args []string) int {
 				if j.i%5 == 0 && evmx.ForkIndex(j.fork) >= evmx.ForkIndex("Byzantium") {
 					vs = append(vs, variant{"eips3855+3860", runOpts{fork: j.fork, gas: p.Gas, tracer: true, eips: []int{3855, 3860}, limit: *limit}})
 				}
+				if p.ResultOnly {
+					vs = vs[1:2] // no recording tracer: only the result pair
+				}
 				if p.Limit > *limit {
 					for k := range vs {
 						vs[k].o.limit = p.Limit // a program that needs a longer recorded stream (the call-depth limit)
